@@ -233,7 +233,7 @@ def machine(on_end, expired):
                     else:
                         raise Violation(f"slice assignment of {vals} (total probability {tot}) was accepted")
                 else:
-                    must_raise(ValueError, lambda: self.wf.__setitem__(slice(a, b), vals), f"slice assignment of {vals} (total probability {tot})")
+                    must_raise(Exception, lambda: self.wf.__setitem__(slice(a, b), vals), f"slice assignment of {vals} (total probability {tot})")
                 self._unchanged(before, "breaking slice assignment")
                 self._note("rej")
                 self.info["classes"].add("slice_assignment")
@@ -256,7 +256,7 @@ def machine(on_end, expired):
             def go():
                 k = i % len(self.model)
                 before = _read(self.wf)
-                must_raise(ValueError, lambda: self.wf.__setitem__(k, mag), f"assignment of {mag} (breaks normalisation)")
+                must_raise(Exception, lambda: self.wf.__setitem__(k, mag), f"assignment of {mag} (breaks normalisation)")
                 self._unchanged(before, "breaking assignment")
                 self._note("rej")
             self.step("break_", {"i": i, "mag": mag}, go)
@@ -310,7 +310,7 @@ def machine(on_end, expired):
                     if not remaining:
                         self.info["classes"].add("became_numeric_by_assignment")
                 else:
-                    must_raise(ValueError, lambda: self.wf.__setitem__(k, v), f"assignment of {v} (numeric mass {tot})")
+                    must_raise(Exception, lambda: self.wf.__setitem__(k, v), f"assignment of {v} (numeric mass {tot})")
                     self._unchanged(before, "rejected number")
                     self._note("rej")
             self.step("put_number", {"i": i, "val": val, "exact": exact}, go)
@@ -369,7 +369,7 @@ def machine(on_end, expired):
                 if not fs:
                     return
                 before = _read(self.wf)
-                must_raise(ValueError, lambda: self.wf.bind({s: val for s in fs}), f"binding all symbols to {val}")
+                must_raise(Exception, lambda: self.wf.bind({s: val for s in fs}), f"binding all symbols to {val}")
                 self._unchanged(before, "rejected bind")
                 self._note("rej")
             self.step("bind_total_invalid", {"val": val}, go)
@@ -401,9 +401,9 @@ def o_ctor(spec):
     if k == "bad_len":
         L = spec["len"]
         w = np.ones(L) / math.sqrt(max(L, 1))
-        must_raise(ValueError, lambda: Wavefunction(conv(w)), f"vector of length {L}")
+        must_raise(Exception, lambda: Wavefunction(conv(w)), f"vector of length {L}")
     elif k == "unnormalised":
-        must_raise(ValueError, lambda: Wavefunction(conv(v * spec["scale"])), f"vector with norm {spec['scale']}")
+        must_raise(Exception, lambda: Wavefunction(conv(v * spec["scale"])), f"vector with norm {spec['scale']}")
     elif k == "ok":
         wf = must(lambda: Wavefunction(conv(v)), "normalised vector")
         require(len(wf) == N and wf.n_qubits == spec["n"], "length / n_qubits wrong")
@@ -416,7 +416,7 @@ def o_ctor(spec):
             model[1 % N] = 1.2 if N > 1 else sympy.Symbol("a")
             if N == 1:
                 return {"nontrivial": False}
-            must_raise(ValueError, lambda: Wavefunction(model), "symbolic vector whose numeric part exceeds 1")
+            must_raise(Exception, lambda: Wavefunction(model), "symbolic vector whose numeric part exceeds 1")
         else:
             wf = must(lambda: Wavefunction(model), "symbolic vector with numeric part <= 1")
             require(wf.free_symbols == {sympy.Symbol("a")}, "free symbols wrong")
@@ -435,7 +435,7 @@ def o_dicke(spec):
 
     n, k = spec["n"], spec["k"]
     if k < 0 or k > n:
-        must_raise(ValueError, lambda: Wavefunction.dicke_state(n, k), f"dicke_state({n},{k})")
+        must_raise(Exception, lambda: Wavefunction.dicke_state(n, k), f"dicke_state({n},{k})")
         return {"nontrivial": False}
     wf = must(lambda: Wavefunction.dicke_state(n, k), f"dicke_state({n},{k})")
     p = np.ravel(np.asarray(wf.get_probabilities(), dtype=float))
